@@ -213,6 +213,10 @@ pub use crate::{
     parser::{LexParseError, ParseError, ParseRepair, RTParserBuilder, RecoveryKind},
 };
 
+#[cfg(grmtools_verif)]
+#[doc(hidden)]
+pub use crate::cpctplus::verif_constants;
+
 #[allow(deprecated)]
 pub use crate::parser::action_generictree;
 
